@@ -365,7 +365,20 @@ def run(repo: Repo, chk: Check, thorough: bool = False) -> None:
             continue
         ok, why = _has_private_marker(repo, f, var)
         chk.ob('R12.4', f'{q} :: {var}', ok, why, f.loc)
-    chk.require('R12.4', 8)
+    # a marker accumulated in a local variable must survive to the return: no plain re-assignment after it
+    for q in sorted({q for q, _ in MARKER_SITES}):
+        f = repo.func(q)
+        for vname, marker_stmt in _marker_accumulators(f):
+            cfg = CFG(f)
+            after = cfg.reachable(marker_stmt, no_exc=True)
+            kills = [n for n in f.walk() if isinstance(n, ast.Assign) and id(n) in after and n is not marker_stmt and
+                     any(isinstance(t, ast.Name) and t.id == vname for t in n.targets) and
+                     vname not in {x.id for x in ast.walk(n.value) if isinstance(x, ast.Name)}]
+            chk.ob('R12.4', f'{q} :: marker kept in `{vname}`', not kills,
+                   f'after the private marker is added to `{vname}` it is only extended, never overwritten' if not kills else
+                   f'`{norm(kills[0])[:50]}` (line {kills[0].lineno}) overwrites `{vname}` after the private marker was added: the entry loses the marker',
+                   repo.loc(f.mod, marker_stmt))
+    chk.require('R12.4', 10)
 
 
 # ----------------------------------------------------------------------------------------------------------
@@ -504,6 +517,22 @@ def _local_dependencies(f: Func, e: Optional[ast.AST]) -> Set[ast.AST]:
 def _mentions_var(f: Func, var: str) -> bool:
     return any(dotted(n) == var for n in f.walk() if isinstance(n, (ast.Name, ast.Attribute))) or \
         var in [p.arg for p in f.params()]
+
+
+def _marker_accumulators(f: Func) -> List[Tuple[str, ast.stmt]]:
+    """(variable, statement) where a string containing 'private' is assigned / appended to a local name."""
+    out: List[Tuple[str, ast.stmt]] = []
+    for n in f.walk():
+        tgt = None
+        if isinstance(n, ast.AugAssign) and isinstance(n.target, ast.Name):
+            tgt = n.target.id
+        elif isinstance(n, ast.Assign) and len(n.targets) == 1 and isinstance(n.targets[0], ast.Name):
+            tgt = n.targets[0].id
+        if tgt is None:
+            continue
+        if any(isinstance(c, ast.Constant) and isinstance(c.value, str) and 'private' in c.value for c in ast.walk(n.value)):
+            out.append((tgt, n))
+    return out
 
 
 def _has_private_marker(repo: Repo, f: Func, var: str) -> Tuple[bool, str]:
